@@ -85,7 +85,7 @@ func c52gOps(thorough bool) []vsched.Op {
 		}
 		want := c52gRender((&real.Config{HTTPProxy: k.http, HTTPSProxy: k.https, NoProxy: k.noProxy, CGI: k.cgi}).ProxyFunc(), k.urls)
 		ops = append(ops, vsched.Op{Kind: "ProxyFunc", Want: want,
-			Name: fmt.Sprintf("Config{HTTP:%q HTTPS:%q NoProxy:%q CGI:%v}.ProxyFunc() on %v", k.http, k.https, k.noProxy, k.cgi, k.urls),
+			Name: fmt.Sprintf("ProxyFunc(%s;NO_PROXY=%q)x%d", k.name, k.noProxy, len(k.urls)),
 			Run: func() string {
 				return c52gRender((&Config{HTTPProxy: k.http, HTTPSProxy: k.https, NoProxy: k.noProxy, CGI: k.cgi}).ProxyFunc(), k.urls)
 			}})
